@@ -267,6 +267,57 @@ LEMMAS = {
 }
 
 
+LEMMAS["bor_bit"] = _lem(
+    2,
+    lambda v, b: z3.Implies(z3.And(v >= 0, b >= 0, b <= 1), bor(2 * v, b) == 2 * v + b),
+    lambda v, b: not (v >= 0 and 0 <= b <= 1) or ((2 * v) | b) == 2 * v + b,
+    [_GP + [255, 1023], [0, 1]],
+)
+
+
+def _cleared(x, k):
+    return x - z3.If(bitof(x, k) == 1, pow2(k), z3.IntVal(0))
+
+
+LEMMAS["clear_bit"] = _lem(
+    2,
+    lambda x, k: z3.Implies(z3.And(x >= 0, k >= 0), band(x, -pow2(k) - 1) == _cleared(x, k)),
+    lambda x, k: not (x >= 0 and k >= 0) or (x & ~(1 << k)) == x - (((x >> k) & 1) << k),
+    [_GP + [255, 170, 85], _GP],
+)
+LEMMAS["set_bit"] = _lem(
+    2,
+    lambda y, k: z3.Implies(z3.And(y >= 0, k >= 0, bitof(y, k) == 0), bor(y, pow2(k)) == y + pow2(k)),
+    lambda y, k: not (y >= 0 and k >= 0 and ((y >> k) & 1) == 0) or (y | (1 << k)) == y + (1 << k),
+    [_GP + [255, 170, 85], _GP],
+)
+# y = x with bit k replaced by b:  bit k of y is b, every other bit j is unchanged, range preserved
+LEMMAS["bit_update"] = _lem(
+    4,
+    lambda x, k, b, j: z3.Implies(
+        z3.And(x >= 0, k >= 0, j >= 0, b >= 0, b <= 1),
+        z3.And(
+            bitof(_cleared(x, k) + z3.If(b == 1, pow2(k), z3.IntVal(0)), k) == b,
+            z3.Implies(j != k, bitof(_cleared(x, k) + z3.If(b == 1, pow2(k), z3.IntVal(0)), j) == bitof(x, j)),
+            _cleared(x, k) + z3.If(b == 1, pow2(k), z3.IntVal(0)) >= 0,
+            z3.Implies(z3.And(x <= 255, k <= 7), _cleared(x, k) + z3.If(b == 1, pow2(k), z3.IntVal(0)) <= 255),
+            bitof(_cleared(x, k), k) == 0,
+            _cleared(x, k) >= 0,
+        ),
+    ),
+    lambda x, k, b, j: not (x >= 0 and k >= 0 and j >= 0 and 0 <= b <= 1) or (
+        (lambda y: ((y >> k) & 1) == b and (j == k or ((y >> j) & 1) == ((x >> j) & 1)) and y >= 0 and (not (x <= 255 and k <= 7) or y <= 255))(
+            (x & ~(1 << k)) | (b << k))),
+    [_GP + [255, 170], [0, 1, 3, 7], [0, 1], [0, 1, 2, 7]],
+)
+LEMMAS["bitof_small"] = _lem(  # bits of a byte above bit 7 are zero; bit of 0 is 0
+    2,
+    lambda x, k: z3.And(z3.Implies(z3.And(x >= 0, k >= 0, x < pow2(k)), bitof(x, k) == 0), bitof(0, k) == 0),
+    lambda x, k: not (x >= 0 and k >= 0 and x < 2 ** k) or ((x >> k) & 1) == 0,
+    [_GP + [255], _GP],
+)
+
+
 def pow2_small(y):
     """Ground facts attached automatically to every pow2(y) term the code produces."""
     t = pow2(y)
@@ -420,8 +471,8 @@ class Ctx(object):
         else:
             self.facts.append(fact)
 
-    def oblige(self, st, goal, kind, node=None, text=""):
-        if st.dead or self.spec_mode:
+    def oblige(self, st, goal, kind, node=None, text="", force=False):
+        if st.dead or (self.spec_mode and not force):
             return
         lineno = getattr(node, "lineno", 0) if node is not None else 0
         oid = "%s#%s@%d/%d" % (self.unit, kind, lineno, next(self.seq))
@@ -1008,6 +1059,9 @@ class Exec(object):
             raise Unsupported("** with non-2 symbolic base", e)
         if isinstance(op, ast.LShift):
             ctx.oblige(st, y >= 0, "shift-nonneg", e, "shift count is non-negative")
+            xs = z3.simplify(x)
+            if z3.is_int_value(xs) and xs.as_long() == 1:
+                return self.mk_pow2(st, y)
             return x * self.mk_pow2(st, y)
         if isinstance(op, ast.RShift):
             ctx.oblige(st, y >= 0, "shift-nonneg", e, "shift count is non-negative")
@@ -1209,8 +1263,7 @@ class Exec(object):
             except AttributeError:
                 raise Unsupported("attribute %s of constant" % e.attr, e)
         if base.k == "ref":
-            if (base.x or "").startswith("obj"):
-                # property?
+            if (base.x or "").startswith("obj") and e.attr in self.reg.fields:
                 return self.load_field(st, base, e.attr, e)
             return mk_conc(BoundMethod(base, e.attr))
         if base.k in ("int", "bool") and e.attr == "bit_length":
@@ -1263,6 +1316,9 @@ class BoundMethod(object):
 
 
 GHOST_NAMES = {
+    "store",
+    "define",
+    "use_forall",
     "content",
     "fpos",
     "flen",
